@@ -158,3 +158,11 @@ META["C09"] = dict(
          "check is off. Non-low-degree data and understated bounds complete the negative side.",
     note="Decides the property against these specific adversaries, not all adversaries. Hooks: winter_utils::verif failpoints.",
 )
+META["C01"] = dict(
+    technique="completeness monitor over a randomized AIR generator (independent checker confirms each statement) x fields x hashers x options, release / debug-assertion / concurrent builds",
+    text="Each case generates an AIR specification, a trace satisfying it by construction and random valid options; an "
+         "independent constraint checker written with reference integer arithmetic confirms the trace satisfies the AIR; "
+         "the real prover and verifier must then produce and accept a proof, also after a serialization round trip. "
+         "Directed cases pin the corners the property names (255 distinct queries, exemptions, wide traces, long sequences).",
+    note="Sampling of an unbounded configuration space; the validity predicate of DESIGN.md 4.3 bounds what is generated.",
+)
